@@ -228,7 +228,7 @@ impl Gen {
     }
 
     pub fn genesis(&mut self) -> Vec<Op> {
-        self.deploy_left = if self.p.staged { 3 + self.rng.below(8) as u32 } else { 0 };
+        self.deploy_left = if self.p.staged { 5 + self.rng.below(7) as u32 } else { 0 };
         let r = &mut self.rng;
         let epoch = r.pick(&self.p.epochs);
         let unbonding = r.pick(&self.p.unbondings);
@@ -251,15 +251,20 @@ impl Gen {
                 sb.push((us.remove(k), 1 + r.below128(1_000_000)));
             }
         }
+        // a staged deployment may instantiate the siblings before the hub's address is known, with a
+        // placeholder the owner replaces inside the deployment window
+        let staged = self.p.staged;
+        let mut ph = |r: &mut Rng| if staged && r.chance(1, 3) { 9 } else { HUB };
+        let (ph_reward, ph_disp, ph_reg) = (ph(r), ph(r), ph(r));
         let mut ops = vec![
             Op::Reset,
             Op::Inst(Inst::Hub { sender: OWNER, epoch, unbonding, fee, thr, rd: 1, updater: UPDATER }),
             Op::Inst(Inst::Bsei { sender: OWNER, hub: HUB, bals: bb }),
             Op::Inst(Inst::Stsei { sender: OWNER, hub: HUB, bals: sb }),
-            Op::Inst(Inst::Reward { sender: OWNER, hub: HUB, denom: 1, swap: SWAP, denoms: vec![0, 1] }),
+            Op::Inst(Inst::Reward { sender: OWNER, hub: ph_reward, denom: 1, swap: SWAP, denoms: vec![0, 1] }),
             Op::Inst(Inst::Disp {
                 sender: OWNER,
-                hub: HUB,
+                hub: ph_disp,
                 reward: REWARD,
                 sd: 0,
                 bd: 1,
@@ -269,7 +274,7 @@ impl Gen {
                 oracle: ORACLE,
                 denoms: vec![0, 1, 2],
             }),
-            Op::Inst(Inst::Reg { sender: OWNER, hub: HUB, vals }),
+            Op::Inst(Inst::Reg { sender: OWNER, hub: ph_reg, vals }),
             if self.p.staged {
                 // the wiring follows step by step (next_op)
                 Op::Env(EnvOp::Advance(1))
@@ -360,6 +365,26 @@ impl Gen {
     fn deploy_step(&mut self, c: &Chain) -> Op {
         let wired = c.hub_wiring();
         let (d, g, b, s, a, w) = (wired[0].is_some(), wired[1].is_some(), wired[2].is_some(), wired[3].is_some(), wired[4].is_some(), wired[5].is_some());
+        // towards the end of the window the placeholders are replaced, one message each
+        if self.deploy_left <= 4 {
+            let reg_hub = c.stores.get(&REG).and_then(|st| basset_sei_validators_registry::registry::CONFIG.load(st).ok())
+                .and_then(|k| { use cosmwasm_std::Api; cosmwasm_std::testing::MockApi::default().addr_humanize(&k.hub_contract).ok() }).map(|a| id_of(a.as_str()));
+            if reg_hub.is_some() && reg_hub != Some(HUB) {
+                return tx(OWNER, REG, Call::Reg(RegMsg::UConfig(Some(HUB))));
+            }
+            let rw: Option<basset::reward::ConfigResponse> = c.q(REWARD, &basset::reward::QueryMsg::Config {}).ok();
+            if let Some(k) = rw {
+                if id_of(&k.hub_contract) != HUB {
+                    return tx(OWNER, REWARD, Call::Reward(RewMsg::UConfig(Some(HUB), None, None)));
+                }
+            }
+            let dc: Option<basset::dispatcher::ConfigResponse> = c.q(DISP, &basset_sei_rewards_dispatcher::msg::QueryMsg::Config {}).ok();
+            if let Some(k) = dc {
+                if id_of(&k.hub_contract) != HUB {
+                    return tx(OWNER, DISP, Call::Disp(DispMsg::UConfig(Some(HUB), None, None, None, None, None)));
+                }
+            }
+        }
         self.deploy_left -= 1;
         if self.deploy_left == 0 {
             // complete the wiring with whatever is still missing
@@ -391,7 +416,11 @@ impl Gen {
             4 | 5 => {
                 let mut f: [Option<Id>; 7] = [None; 7];
                 let other = r.pick(&[u, STSEI, BSEI, 9]);
-                f[2 + r.below(2) as usize] = Some(other);
+                let k = 2 + r.below(2) as usize;
+                // a token slot that is still empty is filled with the token itself: the system the
+                // oracles judge is the one wired to its own six contracts
+                let set = if k == 2 { b } else { s };
+                f[k] = Some(if set { other } else if k == 2 { BSEI } else { STSEI });
                 let who = if r.chance(3, 4) { OWNER } else { u };
                 tx(who, HUB, Call::Hub(HubMsg::UConfig(f)))
             }
@@ -410,7 +439,25 @@ impl Gen {
         }
     }
 
+    /// the next operation; now and then coins ride along with a message that does not ask for any
     pub fn next_op(&mut self, c: &Chain) -> Op {
+        let op = self.next_op_inner(c);
+        if let Op::Tx { sender, target, call, funds } = &op {
+            // (only accounts of people: a line that plays one of the contracts must not spend its coins)
+            let person = ![HUB, BSEI, STSEI, REWARD, DISP, REG, SWAP, ORACLE, AIRDROP].contains(sender);
+            if person && funds.is_empty() && self.rng.chance(1, 30) {
+                let d = if self.rng.chance(3, 4) { 0u8 } else { 1u8 };
+                let have = c.bal(*sender, d);
+                if have > 0 {
+                    let amt = (1 + self.rng.below128(1000)).min(have);
+                    return Op::Tx { sender: *sender, target: *target, call: call.clone(), funds: vec![(d, amt)] };
+                }
+            }
+        }
+        op
+    }
+
+    fn next_op_inner(&mut self, c: &Chain) -> Op {
         if self.deploy_left > 0 {
             return self.deploy_step(c);
         }
@@ -680,7 +727,8 @@ impl Gen {
                 match cfg {
                     Some(k) => {
                         let h = if keep(r) { Some(id_of(&k.hub_contract)) } else { None };
-                        let d = if keep(r) { Some(denom_id(&k.reward_denom)) } else { None };
+                        // now and then a real change of the reward denomination (mid-life, with holders)
+                        let d = if r.chance(1, 8) { Some(r.pick(&[0u8, 1, 2])) } else if keep(r) { Some(denom_id(&k.reward_denom)) } else { None };
                         let w = if keep(r) { Some(id_of(&k.swap_contract)) } else { None };
                         tx(id_of(&k.owner), REWARD, Call::Reward(RewMsg::UConfig(h, d, w)))
                     }
@@ -718,7 +766,13 @@ impl Gen {
                     None => tx(owner, HUB, Call::Hub(HubMsg::UParams(None, None, None, None, Some(false), None))),
                 }
             }
-            _ => tx(OWNER, REG, Call::Reg(RegMsg::UConfig(Some(HUB)))),
+            _ => {
+                // the registry is told its hub again — or, rarely, another one, and back
+                let cur = c.stores.get(&REG).and_then(|st| basset_sei_validators_registry::registry::CONFIG.load(st).ok());
+                let cur_hub = cur.as_ref().and_then(|k| { use cosmwasm_std::Api; cosmwasm_std::testing::MockApi::default().addr_humanize(&k.hub_contract).ok() }).map(|a| id_of(a.as_str())).unwrap_or(HUB);
+                let h = if cur_hub != HUB { HUB } else if r.chance(1, 6) { 9 } else { HUB };
+                tx(OWNER, REG, Call::Reg(RegMsg::UConfig(Some(h))))
+            }
         }
     }
 
